@@ -507,7 +507,9 @@ func (c *FmtCodec) writeSegmentsATXHeading(segs []segment) {
 func (c *FmtCodec) writeSegmentsParagraph(segs []segment) {
 	for i := 0; i < len(segs); i++ {
 		seg := segs[i]
-		startOfLine := i == 0 || (segs[i-1].typ == segNewLine && (i-1 == 0 || segs[i-2].typ != segNewLine))
+		// A newline segment at the start of the paragraph or after another
+		// newline segment is written as "&NewLine;" and does not start a line.
+		startOfLine := i == 0 || (segs[i-1].typ == segNewLine && i-1 > 0 && segs[i-2].typ != segNewLine)
 		endOfLine := i == len(segs)-1 || segs[i+1].typ == segNewLine
 		switch seg.typ {
 		case segText:
